@@ -1339,6 +1339,10 @@ class Confined:
             return self.confined(key, e.value, given)
         if isinstance(e, ast.IfExp):
             return self.confined(key, e.body, given) and self.confined(key, e.orelse, given)
+        if isinstance(e, ast.Attribute) and e.attr == "name" and isinstance(e.value, ast.Name) and e.value.id not in self.params(key):
+            # round 8: `<obj>.name` of a local bound only to tempfile.TemporaryDirectory(...) is the private directory (what `with ... as d` binds)
+            vals = self.bindings(key, e.value.id)
+            return bool(vals) and all(isinstance(v, ast.Call) and self.canonical(rel, v) == "tempfile.TemporaryDirectory" for v in vals)
         if isinstance(e, ast.Call):
             c = self.canonical(rel, e)
             if c in TEMP_ROOTS:
@@ -1447,7 +1451,7 @@ class Confined:
                     else:
                         out.append((rel, q, call, c, "ok", where))
                 elif c == "tempfile.TemporaryDirectory":
-                    if id(call) in with_items:
+                    if id(call) in with_items or (key is not None and self.cleanup_owned(key, call) is not None):
                         out.append((rel, q, call, c, "ok", where))
                     else:
                         out.append((rel, q, call, c, "tempdir-lifetime", where + ": not a with-item (lifetime of the directory not tied to a block)"))
@@ -1487,6 +1491,49 @@ class Confined:
                 return True
         return False
 
+    def cleanup_owned(self, key, call):
+        """round 8: the try/finally spelling of `with tempfile.TemporaryDirectory() as d:` --
+               X = tempfile.TemporaryDirectory(...)          (the only binding of X)
+               try: <body> finally: X.cleanup(); ...         (the very next statement; cleanup() is the FIRST statement of the finally block)
+        -> (try node, X, aliases) where aliases are the locals bound once, to `X.name`; None for any other shape.  Every other use of X must be a load
+        `X.name` (an X handed on, rebound, deleted or cleaned up elsewhere is not this shape).  Which uses lie inside the try body is judged by P5."""
+        f = self.fns[key]
+        for n in ast.walk(f):
+            for fld in ("body", "orelse", "finalbody"):
+                stmts = getattr(n, fld, None)
+                if not isinstance(stmts, list):
+                    continue
+                for i, s in enumerate(stmts):
+                    if not (isinstance(s, ast.Assign) and s.value is call and len(s.targets) == 1 and isinstance(s.targets[0], ast.Name)):
+                        continue
+                    x = s.targets[0].id
+                    nxt = stmts[i + 1] if i + 1 < len(stmts) else None
+                    if not (isinstance(nxt, ast.Try) and nxt.finalbody) or x in self.params(key) or not self.owner_fn_of(s, key):
+                        return None
+                    fin = nxt.finalbody[0]
+                    is_cleanup = (isinstance(fin, ast.Expr) and isinstance(fin.value, ast.Call) and isinstance(fin.value.func, ast.Attribute)
+                                  and fin.value.func.attr == "cleanup" and isinstance(fin.value.func.value, ast.Name) and fin.value.func.value.id == x
+                                  and not fin.value.args and not fin.value.keywords)
+                    if not is_cleanup or len(self.bindings(key, x)) != 1:
+                        return None
+                    if any(isinstance(d, (ast.Delete, ast.Global, ast.Nonlocal)) for d in ast.walk(f)):
+                        return None
+                    parents = {id(c_): p_ for p_ in ast.walk(f) for c_ in ast.iter_child_nodes(p_)}
+                    for u in ast.walk(f):
+                        if isinstance(u, ast.Name) and u.id == x and u is not s.targets[0] and u is not fin.value.func.value:
+                            par = parents.get(id(u))
+                            if not (isinstance(u.ctx, ast.Load) and isinstance(par, ast.Attribute) and par.attr == "name" and isinstance(par.ctx, ast.Load)):
+                                return None
+                    aliases = []
+                    for a_ in ast.walk(f):
+                        if isinstance(a_, ast.Assign) and isinstance(a_.value, ast.Attribute) and a_.value.attr == "name" and isinstance(a_.value.value, ast.Name) \
+                                and a_.value.value.id == x:
+                            if not (len(a_.targets) == 1 and isinstance(a_.targets[0], ast.Name)):
+                                return None
+                            aliases.append(a_.targets[0].id)
+                    return nxt, x, aliases
+        return None
+
     def tempdir_blocks(self, rel):
         """[(function, with node, name, loads inside, loads total)] for every `with TemporaryDirectory() as name`"""
         out = []
@@ -1503,4 +1550,15 @@ class Confined:
                             ins = [n for b in w.body for n in ast.walk(b) if isinstance(n, ast.Name) and n.id == name and isinstance(n.ctx, ast.Load)]
                             stores = [n for n in ast.walk(f) if isinstance(n, ast.Name) and n.id == name and isinstance(n.ctx, ast.Store)]
                             out.append((key[1], w, name, len(ins), len(tot), len(stores)))
+            # round 8: the try/finally spelling (cleanup_owned): the "name" is X together with the locals bound to X.name
+            for c_ in [n for n in ast.walk(f) if isinstance(n, ast.Call) and self.owner.get(id(n)) == key and self.canonical(rel, n) == "tempfile.TemporaryDirectory"]:
+                own = self.cleanup_owned(key, c_)
+                if own is None:
+                    continue
+                w, x, aliases = own
+                names = {x, *aliases}
+                tot = [n for n in ast.walk(f) if isinstance(n, ast.Name) and n.id in names and isinstance(n.ctx, ast.Load)]
+                ins = [n for b in w.body for n in ast.walk(b) if isinstance(n, ast.Name) and n.id in names and isinstance(n.ctx, ast.Load)]
+                n_st = max(len([n for n in ast.walk(f) if isinstance(n, ast.Name) and n.id == a_ and isinstance(n.ctx, ast.Store)]) for a_ in names)
+                out.append((key[1], w, (aliases[0] if aliases else x), len(ins), len(tot) - 1, n_st))      # - 1: the load in `X.cleanup()`
         return out
